@@ -63,3 +63,4 @@ __CPROVER_assigns(g_sosf_n, g_sosf_p, g_srm_n)
 __CPROVER_ensures(segment->dont_free ? (g_sosf_n == 0 && g_srm_n == 0) : (g_sosf_n == 1 && g_sosf_p == segment))
 __CPROVER_ensures(segment->kind == MI_SEGMENT_HUGE ==> g_srm_n == 0);
 #endif
+
